@@ -7,6 +7,7 @@ import textwrap
 
 sys.path.insert(0, os.path.dirname(os.path.dirname(os.path.abspath(__file__))))
 from verif_static.core import run_check, AnalysisError, REPO  # noqa
+from verif_static import emit as EM, absint as A  # noqa
 from verif_static import model as M, tags as T, makotree as MT, cy2ast, eqindex as E  # noqa
 from verif_static.poly import from_ast  # noqa
 
@@ -347,26 +348,50 @@ def rule_wiring(chk):
                detail_bad='array types are not declared for both the s_ and d_ name with the carray C type', detail_ok='s_/d_ pointers of the carray element type')
 
 
+def model_group(it):
+    """a CythonGroup with two model equations, one vector / one float / one int in its context and one precomputed symbol"""
+    e0 = EM.mock(var_name='eq0', name='EqA', loop=EM.func("def loop(self, d_idx, s_idx, d_x, SPH_KERNEL, WIJ): pass"),
+                initialize=EM.func("def initialize(self, d_idx, d_x): pass"))
+    e1 = EM.mock(var_name='eq1', name='EqB', loop=EM.func("def loop(self, d_idx, d_au, XIJ): pass"), reduce=EM.func("def reduce(self, dst, t, dt): pass"),
+                post_loop=EM.func("def post_loop(self, d_idx, d_au): pass"))
+    return EM.instance(it, EQ, 'CythonGroup', equations=[e0, e1], context={'XIJ': [0.0, 0.0, 0.0], 'VIJ': [0.0, 0.0, 0.0], 'HIJ': 0.0, 'n': 1},
+                      precomputed={'HIJ': EM.mock(code='HIJ = 0.5*(d_h[d_idx] + s_h[s_idx])\n')})
+
+
 def rule_scratch(chk):
+    """per-thread scratch vectors: what is allocated and where thread t's slice starts, read off the text the generators emit for a model context"""
     eq = M.py(EQ)
     cls = M.find_class(eq, 'CythonGroup')
-    decl = M.find_func(cls, '_get_variable_decl')
     setup = M.find_func(cls, 'get_variable_array_setup')
-    sd = [s for s in M.str_consts(decl) if 'aligned(' in s]
-    ss = [s for s in M.str_consts(setup) if 'aligned(' in s]
-    full_d = ''.join(M.str_consts(decl))
-    ok = bool(sd) and bool(ss)
-    md = re.search(r'DoubleArray\((aligned\(\{size\}, 8\))\*self\.n_threads\)', full_d)
-    ms = re.search(r'&_\{var\}\.data\[thread_id\*(aligned\(\{size\}, 8\))\]', ''.join(ss))
-    chk.decide(ok and md is not None and ms is not None and md.group(1) == ms.group(1), 'scratch-vectors', 'stride-agrees', node=setup, file=EQ,
-               func='CythonGroup.get_variable_array_setup',
-               detail_bad='per-thread scratch: allocated %s, offset %s - threads would overlap' % (sd, ss), detail_ok='aligned(size, 8) per thread in both')
-    for fn in (decl, setup):
-        c = [x for x in M.calls(fn) if isinstance(x.func, ast.Attribute) and x.func.attr == 'format']
-        kws = [dict((k.arg, compact(k.value)) for k in x.keywords) for x in c]
-        ok = any(k.get('size') == 'len(value)' for k in kws)
-        chk.decide(ok, 'scratch-vectors', 'size-from-context:' + fn.name, node=fn, file=EQ, func='CythonGroup.' + fn.name,
-                   detail_bad='size is not len(value) of the context default', detail_ok='size=len(value)')
+    it = EM.interpreter()
+    g = model_group(it)
+    try:
+        decl = EM.call(it, g, 'get_variable_declarations', g.attrs['context'])
+        offs = EM.call(it, g, 'get_variable_array_setup')
+    except (A.Unsupported, A.Raised) as e:
+        chk.undecided('scratch-vectors', 'stride-agrees', node=setup, file=EQ, func='CythonGroup.get_variable_array_setup', detail='generator not interpretable: %s' % e)
+        decl = offs = None
+    if decl is not None:
+        for var, size in (('XIJ', 3), ('VIJ', 3)):
+            ma = re.search(r'_%s\s*=\s*DoubleArray\((.*)\)\s*$' % var, decl, re.M)
+            mo = re.search(r'^\s*%s\s*=\s*&_%s\.data\[(.*)\]\s*$' % (var, var), offs, re.M)
+            ok = ma is not None and mo is not None
+            stride = None
+            if ok:
+                # allocated = n_threads * stride and offset(t) = t * stride for one and the same stride >= size
+                from verif_static.norm import canon
+                alloc, off = ma.group(1), mo.group(1)
+                ok = canon('(%s)*thread_id' % alloc) == canon('(%s)*self.n_threads' % off)
+                ms = re.search(r'aligned\((\d+),\s*(\d+)\)', off)
+                stride = ms.group(0) if ms else None
+                ok = ok and ms is not None and int(ms.group(1)) == size and 'thread_id' not in ms.group(0)
+            chk.decide(ok, 'scratch-vectors', 'stride-agrees:%s' % var, node=setup, file=EQ, func='CythonGroup.get_variable_array_setup',
+                       detail_bad='for a %d-vector the generators emit `%s` and `%s`: thread t does not get the t-th slice of n_threads equal slices of at least %d doubles (slices overlap)'
+                                  % (size, ma.group(0).strip() if ma else None, mo.group(0).strip() if mo else None, size),
+                       detail_ok='allocated n_threads*%s, thread t starts at t*%s' % (stride, stride))
+        ok = re.search(r'^cdef double HIJ = 0\.0$', decl, re.M) is not None and re.search(r'^cdef long n = 1$', decl, re.M) is not None and 'HIJ' not in offs
+        chk.decide(ok, 'scratch-vectors', 'scalars-are-locals', node=setup, file=EQ, func='CythonGroup._get_variable_decl',
+                   detail_bad='scalar context entries are not declared as thread-private C locals', detail_ok='cdef double / cdef long locals')
     tpl = MT.parse_template(TPL)
     lines = MT.skeleton(tpl.fn('do_group'))
     idx = dict((('setup' if any('get_variable_array_setup' in U(e) for e in l.exprs) else l.text), i) for i, l in enumerate(lines))
@@ -379,12 +404,17 @@ def rule_init(chk):
     eq = M.py(EQ)
     cls = M.find_class(eq, 'CythonGroup')
     gi = M.find_func(cls, 'get_equation_init')
-    src = U(gi)
-    ok = 'enumerate(self.equations)' in src and "'self.{name} = {cls}(**equations[{idx}].__dict__)'" in src and 'idx=i' in src.replace(' ', '') \
-        and 'name=equation.var_name' in src.replace(' ', '') and 'cls=equation.name' in src.replace(' ', '')
-    chk.decide(ok, 'equation-recreation', 'init-index', node=gi, file=EQ, func='CythonGroup.get_equation_init',
-               detail_bad='compiled equation objects are not re-created from equations[i].__dict__ with i the position in the same list',
-               detail_ok='self.<var> = Cls(**equations[i].__dict__)')
+    it = EM.interpreter()
+    g = model_group(it)
+    try:
+        text = EM.call(it, g, 'get_equation_init')
+        lines = [l.strip() for l in text.splitlines() if l.strip()]
+        ok = lines == ['self.eq0 = EqA(**equations[0].__dict__)', 'self.eq1 = EqB(**equations[1].__dict__)']
+        chk.decide(ok, 'equation-recreation', 'init-index', node=gi, file=EQ, func='CythonGroup.get_equation_init',
+                   detail_bad='for equations [eq0:EqA, eq1:EqB] the generator emits %s: compiled equation k must be re-created from equations[k].__dict__ under its own variable name' % lines,
+                   detail_ok='self.<var> = Cls(**equations[k].__dict__), k the position in the same list')
+    except (A.Unsupported, A.Raised) as e:
+        chk.undecided('equation-recreation', 'init-index', node=gi, file=EQ, func='CythonGroup.get_equation_init', detail='generator not interpretable: %s' % e)
     ah = M.py(AH)
     h = M.find_class(ah, 'AccelerationEvalCythonHelper')
     for nm in ('get_equation_init', 'get_equation_defs'):
@@ -400,14 +430,28 @@ def rule_init(chk):
     chk.decide("'self.kernel = %s(**kernel.__dict__)' % object.kernel.__class__.__name__" in U(ki), 'equation-recreation', 'kernel', node=ki, file=AH,
                func='get_kernel_init', detail_bad='kernel is not re-created from kernel.__dict__', detail_ok='Kernel(**kernel.__dict__)')
     gc = M.find_func(cls, '_get_code')
-    src = U(gc)
-    ok = "'self.{eq_name}.{method}({args})'.format(eq_name=eq.var_name, method=kind, args=call_args)" in src and \
-        "args[args.index('SPH_KERNEL')] = 'self.kernel'" in src and "getfullargspec(meth).args" in src
-    chk.decide(ok, 'equation-recreation', 'call-own-arguments', node=gc, file=EQ, func='CythonGroup._get_code',
-               detail_bad='generated call is not self.<var>.<hook>(<the hook\'s own parameters>)', detail_ok='own parameter list, SPH_KERNEL -> self.kernel')
-    pre = [i for i in ast.walk(gc) if isinstance(i, ast.If) and compact(i.test) == "kind=='loop'"]
-    chk.decide(bool(pre) and 'self.precomputed.items()' in U(pre[0]), 'equation-recreation', 'precomputed-only-in-loop', node=gc, file=EQ,
-               func='CythonGroup._get_code', detail_bad='precomputed preamble is not emitted exactly for kind == loop', detail_ok="if kind == 'loop'")
+    want = {'initialize': ['self.eq0.initialize(d_idx, d_x)'],
+            'loop': ['self.eq0.loop(d_idx, s_idx, d_x, self.kernel, WIJ)', 'self.eq1.loop(d_idx, d_au, XIJ)'],
+            'post_loop': ['self.eq1.post_loop(d_idx, d_au)'], 'reduce': ['self.eq1.reduce(dst.array, t, dt)'], 'loop_all': [], 'initialize_pair': []}
+    try:
+        bad = []
+        pre_seen = {}
+        for kind, calls in sorted(want.items()):
+            text = EM.call(it, g, '_get_code', None, kind)
+            ls = [l.strip() for l in text.splitlines() if l.strip()]
+            pre_seen[kind] = [l for l in ls if not l.startswith('self.')]
+            if [l for l in ls if l.startswith('self.')] != calls:
+                bad.append((kind, [l for l in ls if l.startswith('self.')]))
+        chk.decide(not bad, 'equation-recreation', 'call-own-arguments', node=gc, file=EQ, func='CythonGroup._get_code',
+                   detail_bad='for two model equations the generator emits %s: every equation that defines the hook must be called once, in list order, as '
+                              'self.<var>.<hook>(<the hook\'s own parameters, SPH_KERNEL -> self.kernel>) (reduce: dst.array, t, dt)' % bad,
+                   detail_ok='own parameter list, SPH_KERNEL -> self.kernel, list order, hooks an equation lacks are skipped')
+        okp = pre_seen['loop'] == ['HIJ = 0.5*(d_h[d_idx] + s_h[s_idx])'] and all(not v for k, v in pre_seen.items() if k != 'loop')
+        chk.decide(okp, 'equation-recreation', 'precomputed-only-in-loop', node=gc, file=EQ, func='CythonGroup._get_code',
+                   detail_bad='precomputed preamble emitted per hook: %s (must be exactly the code blocks, for `loop` only)' % pre_seen, detail_ok='preamble for loop only')
+    except (A.Unsupported, A.Raised) as e:
+        chk.undecided('equation-recreation', 'call-own-arguments', node=gc, file=EQ, func='CythonGroup._get_code', detail='generator not interpretable: %s' % e)
+
 
 
 def rule_language(chk, tab):
